@@ -207,13 +207,16 @@ def main(argv=None):
     for part, p in ctx.parts.items():
         print(f"   part {part}: {p}")
 
-    if err or ctx.harness_errors:
+    harness_broken = bool(err or ctx.harness_errors)
+    if harness_broken:
         if err:
             print("HARNESS-ERROR", err)
         for case, he in ctx.harness_errors[:3]:
             print("HARNESS-ERROR in case", json.dumps(explore.jsonable(case))[:300], "\n", he)
         print(f"HARNESS-ERROR count={len(ctx.harness_errors) + (1 if err else 0)}")
-        return 2
+        if not unknown:
+            return 2
+        # parts of the harness could not run, but other parts found genuine violations: report those (exit 1)
 
     for sig, (k, n, item) in known_hits.items():
         print(f"KNOWN-FINDING: property={prop_id} {k['what']} [{n} case(s)]")
